@@ -62,15 +62,14 @@ const (
 	mOrphanSecret                         // peering-secret-uuids: the secrets of a row that outlived its peering are recorded by the restore
 	mStaleKindName                        // kind-service-names: rows no registered instance backs any more are not rebuilt
 	mWildcardUnbacked                     // gateway-services / mesh-topology: which names a wildcard gateway maps depends on the write order
-	mStaleDestName                        // kind-service-names: a "destination" row stays when service-defaults is rewritten without a Destination
 	mStaleHash                            // config entries: the stored Hash predates a status write; the restore recomputes it
 	mUnheldUUID                           // peering-secret-uuids: an id no secrets row holds any more is not rebuilt
 	mNodeSpelling                         // services: the row keeps the node name as spelled by its own registration; the restore uses the node row's
 	mNameSpelling                         // kind-service-names / usage: letter-case variants of one service name collapse by write order
-	mAll              = mUsage | mCheckRefresh | mGatewayStamp | mTopologyStamp | mOrphanSecret | mStaleKindName | mWildcardUnbacked | mStaleDestName | mStaleHash | mUnheldUUID | mNodeSpelling | mNameSpelling
+	mAll              = mUsage | mCheckRefresh | mGatewayStamp | mTopologyStamp | mOrphanSecret | mStaleKindName | mWildcardUnbacked | mStaleHash | mUnheldUUID | mNodeSpelling | mNameSpelling
 )
 
-var maskList = []maskSet{mUsage, mCheckRefresh, mTopologyStamp, mGatewayStamp, mOrphanSecret, mUnheldUUID, mStaleKindName, mStaleDestName, mWildcardUnbacked, mStaleHash, mNodeSpelling, mNameSpelling}
+var maskList = []maskSet{mUsage, mCheckRefresh, mTopologyStamp, mGatewayStamp, mOrphanSecret, mUnheldUUID, mStaleKindName, mWildcardUnbacked, mStaleHash, mNodeSpelling, mNameSpelling}
 
 var maskKind = map[maskSet]string{
 	mUsage:            "usage-row-index-after-restore",
@@ -80,7 +79,6 @@ var maskKind = map[maskSet]string{
 	mOrphanSecret:     "orphan-peering-secret-uuid-added-by-restore",
 	mStaleKindName:    "stale-kind-service-name-dropped-by-restore",
 	mWildcardUnbacked: "wildcard-gateway-mappings-depend-on-write-order",
-	mStaleDestName:    "stale-destination-kind-name-dropped-by-restore",
 	mStaleHash:        "config-entry-hash-recomputed-by-restore",
 	mUnheldUUID:       "peering-secret-uuids-diverge-after-peering-id-reuse",
 	mNodeSpelling:     "service-row-node-name-respelled-by-restore",
